@@ -22,6 +22,18 @@ FLAVOUR = {
      "combination of two options or two fields, or an error path that returns instead of raising."),
 }
 
+if os.environ.get('FLAVOUR_SET') == '2':
+    FLAVOUR = {
+     0: ("Prefer a change made of TWO COOPERATING SITES that each look fine alone, or a refactoring slip in less-travelled code: a helper shared by two "
+         "callers changed to suit one of them, a default parameter value changed, the order of two isinstance / elif branches swapped, a constant "
+         "'derived' instead of written out, a loop bound or slice taken from a neighbouring variable, an early return added for a 'trivial' case that is "
+         "not trivial for one argument form."),
+     1: ("Prefer a change whose effect shows only AFTER SOMETHING WENT WRONG or when an object is USED AGAIN: state left behind by a call that raised, "
+         "an object (builder, slice, map, channel, schema registry, parser) reused after an error or after it has produced a result once, a result "
+         "object that still shares a container with its source, behaviour that depends on how many objects were created before or on the order of "
+         "creation, an iterator / generator argument consumed twice."),
+    }
+
 for p in props:
     pid = p['id']
     for i, x in enumerate(letters):
